@@ -46,6 +46,8 @@ class Ctx:
         return self.tier == "quick"
 
     def cleanup(self):
+        if os.environ.get("VERIF_KEEP_WORK"):   # debugging aid: keep scripts, recordings and TLC outputs of this run
+            return
         shutil.rmtree(self.work, ignore_errors=True)
 
 
